@@ -43,6 +43,15 @@ def network_case(rng):
     plan.sort(key=lambda x: x[0])
     t0 = sc.w.now
     bad = []
+    # a second application on one of the stacks, bound to an address nobody sends to (address 0 is a valid one): it may see the
+    # broadcasts and nothing else
+    second = None
+    if rng.random() < 0.4:
+        k2 = rng.randrange(n)
+        a2 = rng.choice([0, 0, next(a for a in range(1, 250) if a not in sc.addrs)])
+        if a2 not in sc.addrs:
+            second = (k2, a2)
+            sc.stacks[k2].ecu.subscribe(sc._cb(k2, 'addr2'), a2)
     for (t, i, dp, pf, ps, prio, data) in plan:
         sc.net.run(max(0, t0 + t - sc.w.now))
         if not sc.send(i, dp, pf, ps, prio, data):
@@ -50,12 +59,22 @@ def network_case(rng):
     sc.net.run(120_000_000, stop=lambda: sc.tables_empty() and sc.net.quiet())
     if sc.net.errors:
         bad.append(f"exception {sc.net.errors[0]}")
+    if second:
+        k2, a2 = second
+        got2 = sorted(repr((pgn, sa, data)) for (t, i, name, prio, pgn, sa, data) in sc.deliv if name == 'addr2')
+        sc.deliv[:] = [d for d in sc.deliv if d[2] != 'addr2']
+        exp2 = sorted(repr(((dp << 16) | (pf << 8) | (ps if pf >= 240 else 0), sa, data))
+                      for (i, dp, pf, ps, prio, sa, data, t) in sc.accepted if i != k2 and (pf >= 240 or ps == 255))
+        if got2 != exp2:
+            extra = [g for g in got2 if g not in exp2]
+            bad.append(f"the second application on stack {k2} (address {a2:#x}) received {len(got2)} messages, {len(exp2)} broadcasts were sent to it; "
+                       f"not a broadcast: {extra[0][:100] if extra else '-'}")
     r = net21.check_exactly_once(sc)
     if r:
         bad.append(r)
     if not sc.tables_empty():
         bad.append("session tables not empty at the end")
-    return bad, dict(n=n, maxcmdt=maxc, latency=lat, eps=eps, msgs=[(p[1], p[3], p[4], len(p[6])) for p in plan])
+    return bad, dict(n=n, maxcmdt=maxc, latency=lat, eps=eps, second=second, msgs=[(p[1], p[3], p[4], len(p[6])) for p in plan])
 
 
 def oracle(ctx, full):
@@ -76,7 +95,8 @@ def oracle(ctx, full):
                 rule="2-4 real stacks, 1-6 messages (0..1785 bytes, all residues mod 7 favoured) on distinct (SA, DA) pairs in both directions, PDU1 "
                      "peer-to-peer / PDU1 to 255 / PDU2 broadcasts, max_cmdt_packets 1..255 per stack, per-frame latencies from {0 (re-entrant), "
                      "1 us, 0.3, 1, 5 ms} keeping bus order, scheduling latency <= 2 ms; deliveries at the address listeners must equal the "
-                     "expected multiset exactly and all tables be empty")
+                     "expected multiset exactly and all tables be empty; in 40% of the cases a second application bound to another address (often "
+                     "address 0) on one stack: it receives exactly the broadcasts")
 
 
 def replay(ctx, path):
